@@ -230,6 +230,89 @@ let storage_handlers = [
 ]
 let () = handlers := storage_handlers @ (List.filter (fun (n, _) -> n <> "cfg") !handlers)
 
+
+(* ---------- index probe (H2) ---------- *)
+type probe = { mutable pmem : (n * ih list) list; mutable pondisk : bool; mutable pfile : ((n * ih list) list * n) option;
+               mutable prange : range; mutable pbloom : bloom option; pbloom_cfg : (string * bloom) option;
+               mutable pcount : int; mutable pfilebytes : n list option }
+let probes : (string, probe) Hashtbl.t = Hashtbl.create 8
+let hv h = Printf.sprintf "(%s,%d,%s,%s,%s)" (dec_of_n h.ih_ts) (if h.ih_del then 1 else 0) (dec_of_n h.ih_msize) (dec_of_n h.ih_dsize) (dec_of_n h.ih_off)
+let block_size = n_of_int 4096
+let pfile_model k (m, _) meta_len = serialize block_size (n_of_int k) (n_of_int (57 + k)) (n_of_int (83 + meta_len + 16)) m
+let rec cut_ih = function [] -> [] | h :: r -> if h.ih_del then [h] else h :: cut_ih r
+let probe_bloom_of cfg =
+  (* cfg bytes: elements, hashers, maxbits, step, fpr ; bits given by the script after ':' *)
+  match String.split_on_char ':' cfg with
+  | [c; hashers; bits] -> Some (bloom_new (n_of_string bits) (n_of_string hashers) (bytes_of_hex c))
+  | _ -> None
+let probe_meta k p =
+  let braw = (match p.pbloom with Some b -> bloom_to_raw b | None -> None) in
+  filters_bytes (n_of_int k) p.prange braw
+let cmd_idx args =
+  let k = !st_k in
+  let kf h = h.ih_key in
+  match args with
+  | ["new"; id; bloom] ->
+    Hashtbl.replace probes id { pmem = []; pondisk = false; pfile = None; prange = range_empty;
+                                pbloom = (if bloom = "none" then None else probe_bloom_of bloom); pbloom_cfg = None;
+                                pcount = 0; pfilebytes = None };
+    emit "idx new"
+  | ["push"; id; key; ts; del; msize; dsize; off] ->
+    let p = Hashtbl.find probes id in
+    if p.pondisk then emit "idx push Err Index" else begin
+      let h = { ih_key = n_of_hex key; ih_ts = n_of_string ts; ih_del = (del = "1"); ih_msize = n_of_string msize;
+                ih_dsize = n_of_string dsize; ih_off = n_of_string off } in
+      p.pmem <- pm_push p.pmem h; p.prange <- range_add p.prange h.ih_key; p.pcount <- p.pcount + 1;
+      (match p.pbloom with Some b -> p.pbloom <- Some (bloom_add bloom_hash b (be_bytes (nat_of_int k) h.ih_key)) | None -> ());
+      emit "idx push ok" end
+  | ["dump"; id; bsize] ->
+    let p = Hashtbl.find probes id in
+    if p.pondisk || p.pmem = [] then emit "idx dump 0" else begin
+      let meta = probe_meta k p in
+      let bytes = index_file_bytes (n_of_int k) (List.init 32 (fun _ -> N0)) true meta p.pmem (n_of_string bsize) in
+      p.pfile <- Some (p.pmem, n_of_string bsize); p.pfilebytes <- Some bytes; p.pondisk <- true; p.pmem <- [];
+      emit ("idx dump " ^ string_of_int (List.length bytes)) end
+  | ["latest"; id; key] ->
+    let p = Hashtbl.find probes id in
+    let r = if p.pondisk then
+        (match p.pfile with Some f -> get_latest_file kf block_size (n_of_int k) (n_of_int (57 + k)) (pfile_model k f (List.length (probe_meta k p))) (n_of_hex key) | None -> None)
+      else (match pm_get p.pmem (n_of_hex key) with Some v -> (match List.rev v with h :: _ -> Some h | [] -> None) | None -> None) in
+    emit (match r with
+        | Some h when h.ih_del -> "idx latest Deleted " ^ dec_of_n h.ih_ts
+        | Some h -> "idx latest Found " ^ hv h
+        | None -> "idx latest NotFound")
+  | ["all"; id; key] ->
+    let p = Hashtbl.find probes id in
+    let r = if p.pondisk then
+        (match p.pfile with Some f -> get_all_file kf block_size (n_of_int k) (n_of_int (57 + k)) (pfile_model k f (List.length (probe_meta k p))) (n_of_hex key) | None -> None)
+      else (match pm_get p.pmem (n_of_hex key) with Some v -> Some (List.rev v) | None -> None) in
+    emit ("idx all [" ^ String.concat " " (List.map hv (cut_ih (match r with Some l -> l | None -> []))) ^ "]")
+  | ["count"; id] ->
+    let p = Hashtbl.find probes id in
+    let c = if p.pondisk then (match p.pfile with Some (m, _) -> int_of_n (count m) | None -> 0) else p.pcount in
+    emit (Printf.sprintf "idx count %d ondisk=%d" c (if p.pondisk then 1 else 0))
+  | ["load"; id; bsize] ->
+    let p = Hashtbl.find probes id in
+    if not p.pondisk then emit "idx load ok" else
+      (match p.pfile with
+       | Some ((m, bs) as f) ->
+         if int_of_n bs <> int_of_string bsize then emit "idx load Err Validation:IndexBlobSize"
+         else begin
+           let fm = pfile_model k f (List.length (probe_meta k p)) in
+           p.pmem <- load_file kf fm; p.pcount <- int_of_n (count m); p.pondisk <- false; emit "idx load ok" end
+       | None -> emit "idx load Err ?")
+  | ["filehex"; id] ->
+    let p = Hashtbl.find probes id in
+    (match p.pfilebytes with Some b -> emit ("idx filehex " ^ hex_of_bytes b) | None -> emit "idx filehex absent")
+  | ["clear"; id] ->
+    let p = Hashtbl.find probes id in
+    p.pmem <- []; p.pondisk <- false; p.pcount <- 0; p.prange <- range_empty;
+    (match p.pbloom with Some b -> p.pbloom <- Some (bloom_clear b) | None -> ());
+    emit "idx clear"
+  | ["drop"; _] -> emit "idx drop"
+  | _ -> emit "*"
+let () = handlers := ("idx", cmd_idx) :: !handlers
+
 (* after the script damages a file byte-wise the L3 model no longer predicts outcomes: wildcard *)
 let tainted = ref false
 let run_script path outpath =
@@ -263,7 +346,7 @@ let main () =
   let n = Array.length Sys.argv in
   let i = ref 1 in
   while !i + 1 < n do
-    tainted := false; Hashtbl.reset blooms; Hashtbl.reset raws; st := init_storage; st_k := 4; st_lazy := false;
+    tainted := false; Hashtbl.reset probes; Hashtbl.reset blooms; Hashtbl.reset raws; st := init_storage; st_k := 4; st_lazy := false;
     st_cfg := { c_dup = true; c_maxrec = n_of_int 1000000; c_maxsize = n_of_int 1000000000 };
     run_script Sys.argv.(!i) Sys.argv.(!i + 1);
     i := !i + 2
